@@ -41,6 +41,8 @@ def define(g, name, crate, file, module, harness_file, properties, entries, para
                 continue
             if etiers and tier not in etiers:
                 continue
+            for k, v in ps.items():
+                fn = fn.replace("@" + k + "@", str(v))
             out.append({"name": module + "::" + fn, "obligation": ob, "functions": fns, "mode": mode,
                         "bound": bound(ps) if callable(bound) else bound, "covers": covers, "timeout": 1200})
         return out
